@@ -109,3 +109,99 @@ package lua
 //@ noraise
 //@ ensures  0 <= value && value <= 255 ==> result == value + 256
 //@ modifies nothing
+
+// ---------------------------------------------------------------------------
+// vm.go: instruction handlers. Frame(L) is what initCallFrame/pushCallFrame establish for a Lua callee and the
+// dispatcher maintains; the operand conditions of each handler are the instance, at the instruction being
+// executed, of the structural validity of C07 (register operands below NumUsedRegisters, constant indices in range, ...).
+// ---------------------------------------------------------------------------
+
+//@ define opOp(inst uint32) int = inst / 67108864
+//@ define opA(inst uint32) int = (inst / 262144) % 256
+//@ define opB(inst uint32) int = inst % 512
+//@ define opC(inst uint32) int = (inst / 512) % 512
+//@ define opBx(inst uint32) int = inst % 262144
+//@ define opSbx(inst uint32) int = inst % 262144 - 131071
+
+//@ define lb(L *LState) int = L.currentFrame.LocalBase
+//@ define R(L *LState, i int) LValue = L.reg.array[L.currentFrame.LocalBase + i]
+//@ define nreg(L *LState) int = L.currentFrame.Fn.Proto.NumUsedRegisters
+//@ define code(L *LState) []uint32 = L.currentFrame.Fn.Proto.Code
+//@ define konst(L *LState) []LValue = L.currentFrame.Fn.Proto.Constants
+//@ define Frame(L *LState) bool = L != nil && L.reg != nil && Inv_reg(L.reg) && L.currentFrame != nil && L.currentFrame.Fn != nil && L.currentFrame.Fn.Proto != nil && 0 <= lb(L) && lb(L) + nreg(L) <= len(L.reg.array) && 0 <= L.currentFrame.Pc && L.currentFrame.Pc <= len(code(L)) && offset(code(L)) == 0 && offset(konst(L)) == 0 && arrid(konst(L)) != arrid(L.reg.array)
+// the registers of the frame other than [lo,hi) and every slot below top outside it keep their values; the frame header is untouched
+//@ define keptExcept(L *LState, lo int, hi int) bool = L.reg == old(L.reg) && L.currentFrame == old(L.currentFrame) && lb(L) == old(lb(L)) && L.currentFrame.Fn == old(L.currentFrame.Fn) && (forall k int :: 0 <= k && k < old(top(L)) && !(lo <= k && k < hi) ==> L.reg.array[k] == old(L.reg.array[k]))
+//@ define topAtLeast(L *LState, r int) bool = top(L) == old(max(top(L), r))
+
+//@ func jumpTable[OP_MOVE] [C01 C07]
+//@ requires Frame(L) && opA(inst) < nreg(L) && opB(inst) < nreg(L)
+//@ noraise
+//@ ensures  result == 0 && Frame(L) && L.currentFrame.Pc == old(L.currentFrame.Pc)
+//@ ensures  R(L, opA(inst)) == old(R(L, opB(inst))) && topAtLeast(L, lb(L) + opA(inst) + 1)
+//@ ensures  keptExcept(L, lb(L) + opA(inst), lb(L) + opA(inst) + 1)
+//@ modifies L.reg.array, L.reg.top, L.reg.array[*]
+
+//@ func jumpTable[OP_LOADK] [C01 C07]
+//@ requires Frame(L) && opA(inst) < nreg(L) && opBx(inst) < len(konst(L))
+//@ noraise
+//@ ensures  result == 0 && Frame(L) && L.currentFrame.Pc == old(L.currentFrame.Pc)
+//@ ensures  R(L, opA(inst)) == old(konst(L)[opBx(inst)]) && topAtLeast(L, lb(L) + opA(inst) + 1)
+//@ ensures  keptExcept(L, lb(L) + opA(inst), lb(L) + opA(inst) + 1)
+//@ modifies L.reg.array, L.reg.top, L.reg.array[*]
+
+//@ func jumpTable[OP_LOADBOOL] [C01 C07]
+//@ requires Frame(L) && opA(inst) < nreg(L) && (opC(inst) != 0 ==> L.currentFrame.Pc + 1 <= len(code(L)))
+//@ noraise
+//@ ensures  result == 0 && Frame(L) && L.currentFrame.Pc == old(L.currentFrame.Pc) + ite(opC(inst) != 0, 1, 0)
+//@ ensures  R(L, opA(inst)) == ite(opB(inst) != 0, LTrue, LFalse) && topAtLeast(L, lb(L) + opA(inst) + 1)
+//@ ensures  keptExcept(L, lb(L) + opA(inst), lb(L) + opA(inst) + 1)
+//@ modifies L.reg.array, L.reg.top, L.reg.array[*], L.currentFrame.Pc
+
+//@ func jumpTable[OP_LOADNIL] [C01 C07]
+//@ requires Frame(L) && opA(inst) < nreg(L) && opB(inst) < nreg(L)
+//@ noraise
+//@ ensures  result == 0 && Frame(L) && L.currentFrame.Pc == old(L.currentFrame.Pc)
+//@ ensures  forall k int :: lb(L) + opA(inst) <= k && k <= lb(L) + opB(inst) ==> L.reg.array[k] == LNil
+//@ ensures  keptExcept(L, lb(L) + opA(inst), lb(L) + opB(inst) + 1) && topAtLeast(L, ite(opA(inst) <= opB(inst), lb(L) + opB(inst) + 1, 0))
+//@ modifies L.reg.array, L.reg.top, L.reg.array[*]
+//@ loop 1 invariant Frame(L) && RA <= i && (i <= lbase + B + 1 || i == RA) && lbase == old(lb(L)) && RA == lbase + opA(inst) && B == opB(inst) && reg == old(L.reg) && L.currentFrame.Pc == old(L.currentFrame.Pc)
+//@ loop 1 invariant forall k int :: RA <= k && k < i ==> L.reg.array[k] == LNil
+//@ loop 1 invariant keptExcept(L, RA, i) && top(L) == max(old(top(L)), ite(RA < i, i, 0)) && arrSameOrFresh(L.reg)
+
+//@ define pc(L *LState) int = L.currentFrame.Pc
+//@ define pcOnly(L *LState) bool = L.reg == old(L.reg) && L.currentFrame == old(L.currentFrame) && lb(L) == old(lb(L)) && top(L) == old(top(L)) && (forall k int :: 0 <= k && k < top(L) ==> L.reg.array[k] == old(L.reg.array[k]))
+
+//@ func jumpTable[OP_NOT] [C01 C07]
+//@ requires Frame(L) && opA(inst) < nreg(L) && opB(inst) < nreg(L)
+//@ noraise
+//@ ensures  result == 0 && Frame(L) && pc(L) == old(pc(L))
+//@ ensures  R(L, opA(inst)) == old(ite(R(L, opB(inst)) == LNil || R(L, opB(inst)) == LFalse, LTrue, LFalse)) && topAtLeast(L, lb(L) + opA(inst) + 1)
+//@ ensures  keptExcept(L, lb(L) + opA(inst), lb(L) + opA(inst) + 1)
+//@ modifies L.reg.array, L.reg.top, L.reg.array[*]
+
+// jumps and conditional skips land inside the function (C07): the target is the operand condition
+//@ func jumpTable[OP_JMP] [C01 C07]
+//@ requires Frame(L) && 0 <= pc(L) + opSbx(inst) && pc(L) + opSbx(inst) < len(code(L))
+//@ noraise
+//@ ensures  result == 0 && Frame(L) && pc(L) == old(pc(L)) + opSbx(inst) && pc(L) < len(code(L)) && pcOnly(L)
+//@ modifies L.currentFrame.Pc
+
+//@ func jumpTable[OP_TEST] [C01 C07]
+//@ requires Frame(L) && opA(inst) < nreg(L) && pc(L) + 1 < len(code(L))
+//@ noraise
+//@ ensures  result == 0 && Frame(L) && pcOnly(L) && pc(L) < len(code(L))
+//@ ensures  pc(L) == old(pc(L)) + ite(old(truthy(R(L, opA(inst)))) == (opC(inst) == 0), 1, 0)
+//@ modifies L.currentFrame.Pc
+
+//@ func jumpTable[OP_TESTSET] [C01 C07]
+//@ requires Frame(L) && opA(inst) < nreg(L) && opB(inst) < nreg(L) && pc(L) + 1 < len(code(L))
+//@ noraise
+//@ ensures  result == 0 && Frame(L) && pc(L) < len(code(L))
+//@ ensures  old(truthy(R(L, opB(inst))) != (opC(inst) == 0)) ==> pc(L) == old(pc(L)) && R(L, opA(inst)) == old(R(L, opB(inst))) && topAtLeast(L, lb(L) + opA(inst) + 1) && keptExcept(L, lb(L) + opA(inst), lb(L) + opA(inst) + 1)
+//@ ensures  old(truthy(R(L, opB(inst))) == (opC(inst) == 0)) ==> pc(L) == old(pc(L)) + 1 && pcOnly(L)
+//@ modifies L.reg.array, L.reg.top, L.reg.array[*], L.currentFrame.Pc
+
+//@ func jumpTable[OP_NOP] [C01 C07]
+//@ noraise
+//@ ensures  result == 0
+//@ modifies nothing
